@@ -136,5 +136,11 @@ fn verif_side_c15() {
             check("URShift", format!("{} >>> {}", ll, ls), (to_uint32_spec(l) >> n) as f64);
         }
     }
+    // parseInt's radix argument is converted with ToInt32 as well
+    for (radix, digits, val) in [(2f64, "10", 2f64), (36.0, "z", 35.0), (16.0, "ff", 255.0), (10.0, "42", 42.0)] {
+        for wrap in [0f64, 4294967296.0, -4294967296.0, 8589934592.0, 4294967296.0 * 1048576.0] {
+            check("parseInt_radix", format!("parseInt(\"{}\", {})", digits, js_lit(radix + wrap)), val);
+        }
+    }
     println!("VERIF-SIDE-DONE cases={}", cases);
 }
